@@ -1,5 +1,5 @@
 """C07 -- DTD validation reports a validity error iff a validity constraint is violated (model M2, pbt/dtdmodel.py)."""
-import base64, json
+import base64, json, os
 from hypothesis import strategies as st
 import xv, dtdmodel as dm
 from driver import hyp_run, PropertyFailure
@@ -50,6 +50,13 @@ CLASS_CODES = {
     'sa-ws': {50},
 }
 NO_META = {'text-in-elemcontent', 'empty-content', 'undeclared-elem'}
+
+# Genuine defects of the unchanged tree whose input class is removed from generation by construction (and counted in excluded_known).
+# Remove an id here (or name it in VERIF_C07_EXCLUSIONS_OFF=id,id|all) once the defect is fixed: the class is then generated and asserted again.
+ALL_EXCLUSIONS = ('C07-sa-attnorm-trailing-inner', 'C07-enum-multiple-tokens-accepted', 'C07-sa-ws-before-reference')
+_off = os.environ.get('VERIF_C07_EXCLUSIONS_OFF', '')
+ACTIVE_EXCLUSIONS = set() if _off == 'all' else set(ALL_EXCLUSIONS) - set(x for x in _off.split(',') if x)
+def EX(fid): return fid in ACTIVE_EXCLUSIONS
 
 # ---------------------------------------------------------------------------------------------------------------
 # execution
@@ -228,13 +235,13 @@ NONTRIV_B = {'uses-cm-ops>=2', 'defaulted-attr', 'tokenised-attr', 'entity-ref',
 def build_bc(g, st_):
     V = dm.violations(g['dtd'], g['doc'])
     if 'ORACLE-DISAGREE' in V: return None
-    if 'sa-norm' in V and dm.sa_norm_undetected(g['dtd'], g['doc']):
+    if EX('C07-sa-attnorm-trailing-inner') and 'sa-norm' in V and dm.sa_norm_undetected(g['dtd'], g['doc']):
         st_.excluded_known['C07-sa-attnorm-trailing-inner'] += 1
         return 'excluded'
-    if 'sa-ws' in V and dm.sa_ws_undetected(g['dtd'], g['doc']):
+    if EX('C07-sa-ws-before-reference') and 'sa-ws' in V and dm.sa_ws_undetected(g['dtd'], g['doc']):
         st_.excluded_known['C07-sa-ws-before-reference'] += 1
         return 'excluded'
-    if 'bad-enum' in V and dm.enum_multi_only(g['dtd'], g['doc']):
+    if EX('C07-enum-multiple-tokens-accepted') and 'bad-enum' in V and dm.enum_multi_only(g['dtd'], g['doc']):
         st_.excluded_known['C07-enum-multiple-tokens-accepted'] += 1
         return 'excluded'
     classes = sorted(V)
@@ -337,7 +344,12 @@ KNOWN = {
 }
 
 def known_witnesses():
-    return sorted(KNOWN.items())
+    out = []
+    for fid in ALL_EXCLUSIONS:
+        p = os.path.join(xv.VERIF, 'regress-known', 'C07', fid + '.json')
+        if os.path.exists(p): out.append((fid, json.load(open(p))['case']))
+        else: out.append((fid, KNOWN[fid]))
+    return out
 
 def classify(case, detail):
     if case.get('lane') == 'A': return None
